@@ -304,6 +304,15 @@ Definition clause_C10 (cfg : config) (kn : known) (now : Z) (o : op) (x : obs) :
           else if negb (res_within gi t) then 7
           else 0
       | None => 0 end
+  (* clause 9: "later refreshes may return to the full grant": a refresh of the owning client naming only
+     resources of the original grant is never refused as invalid_target *)
+  | OpToken GRefreshToken r, Out (OErr EInvalidTarget) =>
+      match lookup (t_refresh r) (k_rts kn) with
+      | Some gi =>
+          if andb (ideq (gi_client gi) (cr_id (t_cred r))) (andb (cr_ok (t_cred r))
+             (andb (cf_resource_enabled cfg) (andb (negb (no_res (t_resources r))) (subset (t_resources r) (gi_res gi)))))
+          then 9 else 0
+      | None => 0 end
   | OpIntrospect r, Out (OIntro i) =>
       if negb (in_active i) then 0 else
       if in_refresh i then
@@ -385,6 +394,8 @@ Fixpoint c16life_from (cs : syscase) (cfg : config) (born : list (id * (id * Z))
       let bad : N :=
         match o, x with
         | OpToken GCiba r, Out (OTokens _) => if expired (t_auth_req r) then 7 else 0
+        (* clause 9: reporting a denial never delivers tokens *)
+        | OpNotifyFail a, Notified _ ns => if existsb (fun nf => negb (is_nil (nf_at nf))) ns then 9 else 0
         | OpNotifyOk a _, Notified _ ns => if andb (expired a) (existsb (fun nf => negb (is_nil (nf_at nf))) ns) then 7 else 0
         | OpToken GCiba r, Out (OErr _) =>
             match lookup (t_auth_req r) born with
@@ -663,8 +674,15 @@ Fixpoint c17dl_from (cfg : config) (cbt : list (id * Z)) (k : nat) (now : Z) (op
       match o, x with
       | OpTick d, _ => c17dl_from cfg cbt (S k) (now + d)%Z ops' xs'
       | OpAuthorize r, Out (OPage cb) => c17dl_from cfg ((cb, now) :: cbt) (S k) now ops' xs'
-      | OpCallback r, Out (OPage _) => if late (cb_id r) then viol 4 k else c17dl_from cfg cbt (S k) now ops' xs'
-      | OpCallback r, Out (ONav _ _ _) => if late (cb_id r) then viol 4 k else c17dl_from cfg cbt (S k) now ops' xs'
+      (* clause 5: an interaction is resumed only through an identifier that was handed to a policy *)
+      | OpCallback r, Out (OPage _) =>
+          match lookup (cb_id r) cbt with
+          | None => viol 5 k
+          | Some _ => if late (cb_id r) then viol 4 k else c17dl_from cfg cbt (S k) now ops' xs' end
+      | OpCallback r, Out (ONav _ _ _) =>
+          match lookup (cb_id r) cbt with
+          | None => viol 5 k
+          | Some _ => if late (cb_id r) then viol 4 k else c17dl_from cfg cbt (S k) now ops' xs' end
       | _, _ => c17dl_from cfg cbt (S k) now ops' xs'
       end
   | _, _ => 0
